@@ -514,6 +514,16 @@ func NewOpLib() *OpLib {
 			p.Txs = []PlannedTx{{Signer: "t3", Fee: sdk.NewCoins(C(d, 1000000)), Msgs: []sdk.Msg{&banktypes.MsgSend{FromAddress: a.Addr.String(), ToAddress: w.A("bot").Addr.String(), Amount: sdk.NewCoins(C("uusdc", 1))}}}}
 		})
 	}
+	for _, d := range []string{"uatom", "uelys"} {
+		d := d
+		// a fee paid in a non-base denom in a block WITHOUT a price feed (the end-block fee conversion
+		// then meets whatever prices are still live)
+		l.Add("fee_tx_"+d+"_nofeed", "feetx_nofeed", 2, func(w *World, p *BlockPlan) {
+			a := w.A("t3")
+			p.Feed = false
+			p.Txs = []PlannedTx{{Signer: "t3", Fee: sdk.NewCoins(C(d, 1000000)), Msgs: []sdk.Msg{&banktypes.MsgSend{FromAddress: a.Addr.String(), ToAddress: w.A("bot").Addr.String(), Amount: sdk.NewCoins(C("uusdc", 1))}}}}
+		})
+	}
 	l.Add("send_elys_to_burn_addr", "burnsend", 1, func(w *World, p *BlockPlan) {
 		a := w.A("t3")
 		p.Txs = one("t3", &banktypes.MsgSend{FromAddress: a.Addr.String(), ToAddress: sdk.AccAddress(make([]byte, 20)).String(), Amount: sdk.NewCoins(C("uelys", 5000000))})
